@@ -1044,7 +1044,8 @@ def length_graph(rng, lengths, model_safe=True, big_bonds=False):
     g = nx.Graph()
     labels = []
     for L in lengths:
-        top = rng.choice([9, 99, 99998, 10 ** 9, OCAML_MAX - 2] if model_safe else [9, 99998, 10 ** 12, 10 ** 30, 10 ** 70])
+        tops = [9, 99, 99998, 10 ** 9, OCAML_MAX - 2] if model_safe else [9, 99998, 10 ** 12, 10 ** 30, 10 ** 70]
+        top = rng.choice([t for t in tops if len(str(t)) <= max(1, L - 50)])
         lab = rng.randint(0, top)
         while lab in labels:
             lab = rng.randint(0, top)
@@ -1271,14 +1272,14 @@ def c07(run, model):
         probs = fals_c07(mm, text)
         if probs:
             run.falsifier_hits.append({"property": "C07", "what": "V3000 reading differs from the stated molecule under spelling [%s]: %s" % (",".join(nd) or "plain", probs[0]),
-                                       "key": "C07:" + (",".join(nd) or "plain"),
+                                       "key": "C07:" + ("header_trap" if "header_trap" in nd else ",".join(nd) or "plain"),
                                        "case": {"kind": "C07", "text": text, "mm": mm.to_json(), "knobs": kn}, "extra": {"problems": probs[:8]}})
         correspond(run, model, "K1", text, "render3000:" + (",".join(nd) or "plain"))
         if mm.n() >= 2 and nd:
             run.nontrivial.add(digest(text))
         return text
 
-    mms = list(directed3000()) + list(mm_stream(run.sub_rng("c07/mm"), 220 * sc, v2ok=False, stars=True))
+    mms = list(directed3000()) + list(mm_stream(run.sub_rng("c07/mm"), 450 * sc, v2ok=False, stars=True))
     for i, mm in enumerate(mms):
         run.count("C07_atoms:" + size_bucket(mm.n()))
         run.count("C07_stars:%d" % len(mm.stars))
@@ -1326,7 +1327,7 @@ def c08(run, model):
         probs = fals_c08(mm, t2, t3)
         if probs:
             run.falsifier_hits.append({"property": "C08", "what": "V2000 / V3000 / stated molecule disagree under V2000 spelling [%s]: %s" % (",".join(nd) or "plain", probs[0]),
-                                       "key": "C08:" + (",".join(nd) or "plain"),
+                                       "key": "C08:" + ("text_trap" if "text_trap" in nd else ",".join(nd) or "plain"),
                                        "case": {"kind": "C08", "text": t2, "text3000": t3, "mm": mm.to_json(), "knobs": kn2, "knobs3000": kn3},
                                        "extra": {"problems": probs[:8]}})
         correspond(run, model, "K2", t2, "render2000:" + (",".join(nd) or "plain"))
@@ -1394,3 +1395,486 @@ def c08(run, model):
         run.count("C08_atoms:" + size_bucket(m.n()))
         one(m, {"charge_mode": "lines", "grouping": "random", "order": True}, {}, "combined")
         one(m, random_knobs2(rng), random_knobs3(rng), "combined")
+
+
+# ===================================================================== C09
+def mini_read3000(text):
+    """Strict reader for the writer's dialect, independent of /repo: returns (problems, atoms, bonds, wrapped)
+    atoms: (index, symbol, x, y, z, props dict); bonds: (index, type, a, b); all numbers as written."""
+    probs = []
+    lines = text.split("\n")
+    for i, l in enumerate(lines):
+        if len(l) > 79:
+            probs.append("line %d has %d characters plus the newline (limit 80 including the newline)" % (i + 1, len(l)))
+        if "\r" in l or l != l.rstrip("\n"):
+            probs.append("line %d contains a line-break character" % (i + 1))
+    if len(lines) < 9:
+        return probs + ["fewer than 9 lines"], [], [], 0
+    if lines[3].split()[-1:] != ["V3000"] or len(lines[3]) != 39:
+        probs.append("counts line is not a V3000 counts line")
+    if lines[-1] != "M  END":
+        probs.append("last line is not M  END")
+    logical = []
+    cur = None
+    wrapped = 0
+    for i, l in enumerate(lines[4:-1], 5):
+        if not l.startswith(V30):
+            probs.append("line %d does not start with the V30 prefix" % i)
+            continue
+        body = l[7:]
+        cur = body if cur is None else cur + body
+        if cur.endswith("-"):
+            cur = cur[:-1]
+            wrapped += 1
+        else:
+            logical.append(cur)
+            cur = None
+    if cur is not None:
+        probs.append("continuation dash on the last V30 line")
+    atoms, bonds = [], []
+    try:
+        if logical[0] != "BEGIN CTAB" or logical[-1] != "END CTAB":
+            probs.append("CTAB keywords missing")
+        c = logical[1].split(" ")
+        if c[0] != "COUNTS" or len(c) != 6:
+            probs.append("bad counts line %r" % logical[1])
+        na, nb = int(c[1]), int(c[2])
+        if logical[2] != "BEGIN ATOM" or logical[3 + na] != "END ATOM":
+            probs.append("atom block keywords misplaced")
+        for l in logical[3:3 + na]:
+            t = l.split(" ")
+            if "" in t or t[5] != "0":
+                probs.append("atom line %r: empty token or aamap" % l)
+            props = {}
+            for kv in t[6:]:
+                key, val = kv.split("=")
+                if key in props or key not in ("CHG", "RAD", "MASS"):
+                    probs.append("atom line %r: property %s" % (l, key))
+                props[key] = int(val)
+            atoms.append((int(t[0]), t[1], t[2], t[3], t[4], props))
+        rest = logical[4 + na:-1]
+        if nb == 0:
+            if rest:
+                probs.append("unexpected lines after the atom block: %r" % rest[:2])
+        else:
+            if rest[0] != "BEGIN BOND" or rest[-1] != "END BOND" or len(rest) != nb + 2:
+                probs.append("bond block malformed")
+            for l in rest[1:-1]:
+                t = l.split(" ")
+                if len(t) != 4:
+                    probs.append("bond line %r" % l)
+                bonds.append(tuple(int(x) for x in t))
+    except (ValueError, IndexError) as e:
+        probs.append("not well-formed: %s: %s" % (type(e).__name__, e))
+    return probs, atoms, bonds, wrapped
+
+
+def close6(a, b):
+    return abs(a - b) <= 5e-7 * max(1.0, abs(a)) or fmt6(a) == fmt6(b)
+
+
+def fals_c09_graph(g):
+    """-> (problems, text, wrapped-line count) for one in-range molecule graph"""
+    text = graph_to_molfile(g)
+    probs, atoms, bonds, wrapped = mini_read3000(text)
+    nodes = list(g.nodes(data=True))
+    pos = {a: i for i, (a, _) in enumerate(nodes)}
+    # the text states the molecule (independent reading)
+    if len(atoms) != len(nodes):
+        probs.append("file states %d atoms, graph has %d" % (len(atoms), len(nodes)))
+    else:
+        for (ix, sym, x, y, z, props), (a, d) in zip(atoms, nodes):
+            want = {k: v for k, v in (("CHG", d.get("chg")), ("RAD", d.get("rad")), ("MASS", d.get("mass"))) if v}
+            if ix != a + 1 or sym != d["element_symbol"] or props != want:
+                probs.append("atom %r written as %r" % (a, (ix, sym, props)))
+            for s, key in ((x, "x_coord"), (y, "y_coord"), (z, "z_coord")):
+                if not re.fullmatch(r"-?\d+\.\d{6}", s) or not close6(float(d.get(key, 0)), float(Fraction(s))):
+                    probs.append("atom %r %s %r written as %r" % (a, key, d.get(key, 0), s))
+    edges = list(g.edges(data=True))
+    wantb = [(i, d.get("bond_type", 1), u + 1, v + 1) for i, (u, v, d) in enumerate(edges, 1)]
+    if bonds != wantb:
+        probs.append("bond lines %s, graph bonds %s" % ([b for b in bonds if b not in wantb][:3], [b for b in wantb if b not in bonds][:3]))
+    # reading back with the implementation
+    g2, err = read_graph(text)
+    if err:
+        probs.append("reading the written molfile raised " + err)
+        return probs, text, wrapped
+    n2 = list(g2.nodes(data=True))
+    if [a for a, _ in n2] != list(range(len(nodes))):
+        probs.append("read-back node labels %s" % [a for a, _ in n2][:10])
+    if len(n2) == len(nodes):
+        for i, ((a, d), (_, d2)) in enumerate(zip(nodes, n2)):
+            for key in ("element_symbol", "chg", "rad", "mass"):
+                if d.get(key) != d2.get(key):
+                    probs.append("atom at position %d: %s %r read back as %r" % (i, key, d.get(key), d2.get(key)))
+            if "atomic_number" in d and d["atomic_number"] != d2.get("atomic_number"):
+                probs.append("atom at position %d: atomic number %r read back as %r" % (i, d["atomic_number"], d2.get("atomic_number")))
+            for key in ("x_coord", "y_coord", "z_coord"):
+                if not close6(float(d.get(key, 0)), d2[key]):
+                    probs.append("atom at position %d: %s %r read back as %r" % (i, key, d.get(key, 0), d2[key]))
+    else:
+        probs.append("read back %d atoms, graph has %d" % (len(n2), len(nodes)))
+    b1 = sorted((min(pos[u], pos[v]), max(pos[u], pos[v]), d.get("bond_type", 1)) for u, v, d in edges)
+    b2 = sorted((min(u, v), max(u, v), d.get("bond_type")) for u, v, d in g2.edges(data=True))
+    if b1 != b2:
+        probs.append("bonds read back differ: lost %s, new %s" % ([b for b in b1 if b not in b2][:4], [b for b in b2 if b not in b1][:4]))
+    return probs, text, wrapped
+
+
+def fals_c09_pipeline(s, calc=False):
+    """string -> graph -> molfile -> graph -> string"""
+    try:
+        g = graph_from_tucan(s)
+        text = graph_to_molfile(g, calc_coordinates=calc)
+        bad = [l for l in text.split("\n") if len(l) > 79]
+        g2 = graph_from_molfile_text(text)
+        s2 = impl.tucan_of(g2)
+    except Exception as e:
+        return ["pipeline raised %s: %s" % (type(e).__name__, str(e)[:160])], None
+    out = []
+    if bad:
+        out.append("molfile line longer than 79 characters")
+    if s2 != s:
+        out.append("pipeline returned another string: %s" % s2[:300])
+    return out, text
+
+
+def random_in_range_graph(rng):
+    g = nx.Graph()
+    n = rng.randint(1, 8)
+    labels = rng.sample(range(0, rng.choice([n, 3 * n, 100000, 10 ** 12])), n) if rng.random() < .6 else list(range(n))
+    specials = [0.0, -0.0, 5e-7, 4.9999999e-7, -5e-7, 1.5e-6, 2.5e-6, 0.1, 1 / 3, -2 / 3, 1e15 + 0.3, 123456.7890125, 2 ** 53 + 1.0, 1e22, 1e23, -1e23,
+                1e100, -1e300, 1.7976931348623157e308, 5e-324, 2.2250738585072014e-308, 0.9999995, 0.99999949, 9.9999995, 99999.9999995, 1, -7, 0]
+    for lab in labels:
+        sym = rng.choice(ELEMENTS)
+        d = {"element_symbol": sym, "atomic_number": ZOF[sym], "partition": 0}
+        if rng.random() < .4:
+            d["chg"] = rng.choice([c for c in range(-15, 16) if c])
+        if rng.random() < .3:
+            d["rad"] = rng.randint(1, 3)
+        if rng.random() < .4:
+            d["mass"] = rng.choice([1, 2, 3, 13, 250, 999, 1000, 10 ** 6, 10 ** 40 + 7])
+        for key in ("x_coord", "y_coord", "z_coord"):
+            r = rng.random()
+            if r < .1:
+                continue
+            d[key] = rng.choice(specials) if r < .5 else rng.uniform(-1, 1) * 10 ** rng.randint(-8, 60)
+        g.add_node(lab, **d)
+    for _ in range(rng.randint(0, 2 * n)):
+        u, v = rng.choice(labels), rng.choice(labels)
+        if u != v:
+            if rng.random() < .2:
+                g.add_edge(u, v)
+            else:
+                g.add_edge(u, v, bond_type=rng.choice([1, 2, 3, 4, 5, 6, 7, 8, 9, 10, 12, 99, 10 ** 20]))
+    return g
+
+
+def c09(run, model):
+    rng = run.sub_rng("c09")
+    sc = scale_of(run)
+    t_end = time.time() + (75 if run.tier == "quick" else 900)
+    run_k3(run, model, run.sub_rng("c09/k3"), 250 * sc)
+
+    def check_graph(g, tag):
+        run.evaluations += 1
+        probs, text, wrapped = fals_c09_graph(g)
+        run.count("C09_graphs:" + tag)
+        run.count("C09_wrapped_lines:%s" % ("0" if wrapped == 0 else "1" if wrapped == 1 else "2-3" if wrapped <= 3 else ">3"))
+        if wrapped:
+            run.nontrivial.add(digest([l for i, l in enumerate(text.split("\n")) if i != 1]))
+            for l in text.split("\n"):
+                pass
+        if probs:
+            run.falsifier_hits.append({"property": "C09", "what": "written molfile is not well-formed / does not read back as the same molecule (%s): %s" % (tag, probs[0]),
+                                       "key": "C09:" + tag, "case": {"kind": "C09", "graph": graph_json(g), "text": text}, "extra": {"problems": probs[:8]}})
+        return text, wrapped
+
+    # atom lines of every targeted length, label gaps, huge labels / masses / bond types (bond lines reach the targets too)
+    reps = 500 * sc
+    for L in TARGET_LENGTHS:
+        for r in range(reps):
+            lens = [L] + [rng.choice(TARGET_LENGTHS + [rng.randint(60, 400)]) for _ in range(rng.randint(0, 2))]
+            g = length_graph(rng, lens, model_safe=False, big_bonds=True)
+            text, wrapped = check_graph(g, "targeted_atom_lines")
+            for a, d in g.nodes(data=True):
+                line = "%d %s %s %s %s 0" % (a + 1, d["element_symbol"], fmt6(d["x_coord"]), fmt6(d["y_coord"]), fmt6(d["z_coord"])) + \
+                       "".join(" %s=%d" % (k.upper(), d[k]) for k in ("chg", "rad", "mass") if k in d)
+                run.count("C09_atom_line_length:%s" % (len(line) if len(line) in TARGET_LENGTHS else "other"))
+                for before, after, ctx in wrap_boundary_classes(line):
+                    run.count("C09_wrap_between:%s|%s" % (before, after))
+                    if before == "eq" or after == "eq" or (before == "letter" and after == "letter"):
+                        run.count("C09_wrap_inside_keyword")
+            if wrapped and r == 0:
+                sample(run, {"graph": graph_json(g), "molfile_lines": text.split("\n")[4:12]})
+    # bond lines of every targeted length
+    for L in TARGET_LENGTHS:
+        for r in range(max(2, reps // 2)):
+            g = nx.Graph()
+            D = L - 4                                   # "1 T a b": three numbers share L - 4 digits
+            while True:
+                d1 = rng.randint(1, D - 2)
+                d2 = rng.randint(1, D - d1 - 1)
+                parts = [d1, d2, D - d1 - d2]
+                rng.shuffle(parts)
+                bt, va, vb = (int(rng.choice("123456789") + rand_digits(rng, k - 1, lead=False)) for k in parts)
+                if va != vb:
+                    break
+            la, lb = va - 1, vb - 1
+            for lab in (la, lb):
+                g.add_node(lab, element_symbol="C", atomic_number=6, partition=0, x_coord=0.0, y_coord=1.0, z_coord=-1.0)
+            g.add_edge(la, lb, bond_type=bt)
+            line = "1 %d %d %d" % (bt, la + 1, lb + 1)
+            run.count("C09_bond_line_length:%s" % (len(line) if len(line) in TARGET_LENGTHS else "other"))
+            for before, after, ctx in wrap_boundary_classes(line):
+                run.count("C09_bond_wrap_between:%s|%s" % (before, after))
+            check_graph(g, "targeted_bond_lines")
+    for _ in range(10000 * sc):
+        check_graph(random_in_range_graph(rng), "random_in_range")
+        if time.time() > t_end:
+            break
+    # molecules of the shared stream, through the reader-shaped graph and through the TUCAN pipeline
+    k = 0
+    for am in gens.standard_stream(run.sub_rng("c09/stream"), run.tier):
+        if am.n() > 150 or am.n() == 0:
+            continue
+        k += 1
+        if k % 3 == 0:
+            # isotope masses long enough to force one or several wraps
+            for i in rng.sample(range(am.n()), min(am.n(), rng.randint(1, 3))):
+                am.mass[i] = int(rng.choice("123456789") + rand_digits(rng, rng.choice([30, 45, 46, 47, 48, 49, 50, 100, 118, 119, 120, 121, 200]), lead=False))
+        check_graph(mm_graph(mm_of_am(am, rng, v2ok=False)), "stream")
+        s = impl.tucan_of(impl.graph_of(am))
+        run.evaluations += 1
+        probs, text = fals_c09_pipeline(s, calc=(k % 10 == 0 and am.n() <= 30))
+        run.count("C09_pipeline:%s" % ("wrapped" if text and any(l.endswith("-") for l in text.split("\n")[4:]) else "plain"))
+        if text and any(l.endswith("-") for l in text.split("\n")[4:]):
+            run.nontrivial.add(digest(s))
+        if probs:
+            run.falsifier_hits.append({"property": "C09", "what": "string -> graph -> molfile -> graph -> string: " + probs[0], "key": "C09:pipeline",
+                                       "case": {"kind": "C09-pipeline", "tucan": s, "calc": k % 10 == 0 and am.n() <= 30, "text": text}, "extra": {"problems": probs}})
+        if time.time() > t_end + 30:
+            run.notes.append("C09: time budget reached in the pipeline stream after %d molecules" % k)
+            break
+
+
+# ===================================================================== C06
+def tucan_of_text(text):
+    g, err = read_graph(text)
+    if err:
+        return None, err
+    try:
+        return impl.tucan_of(g), None
+    except Exception as e:
+        return None, "pipeline raised %s: %s" % (type(e).__name__, str(e)[:160])
+
+
+def c06_variants(mm, rng, kb, kb2, traps=False):
+    """yield (class name, text A, text B): renderings of one molecule differing in one class of non-identity data"""
+    seed = rng.getrandbits(32)
+    R = lambda: random.Random(seed)
+    A = render3000(mm, R(), **kb)
+
+    def with_atoms(f):
+        m = mm.copy()
+        for i, a in enumerate(m.atoms):
+            f(i, a)
+        return m
+
+    def with_bonds(f):
+        m = mm.copy()
+        for b in m.bonds:
+            b[0] = f(b[0])
+        for s in m.stars:
+            s[0] = f(s[0])
+        return m
+
+    v2 = v2ok(mm)
+    # --- molecule-level non-identity data
+    def newc(i, a):
+        a[4:7] = [rand_coord(rng, v2), rand_coord(rng, v2), rand_coord(rng, v2)]
+    m_coord = with_atoms(newc)
+    m_zero = with_atoms(lambda i, a: a.__setitem__(slice(4, 7), ["0", "0", "0"]))
+    m_bt = with_bonds(lambda t: rand_btype(rng, v2))
+    m_arom = with_bonds(lambda t: 4)
+    m_single = with_bonds(lambda t: 1)
+    types = [b[0] for b in mm.bonds] + [s[0] for s in mm.stars]
+    chgs = [a[1] for a in mm.atoms]
+    rng.shuffle(types)
+    rng.shuffle(chgs)
+    m_res = mm.copy()
+    for b, t in zip(m_res.bonds + m_res.stars, types):
+        b[0] = t
+    for a, c in zip(m_res.atoms, chgs):
+        a[1] = c
+    # alternate single/double along the bond list, flipped, with a charge pair moved (resonance-style)
+    m_alt1 = mm.copy()
+    m_alt2 = mm.copy()
+    for j, (b1, b2) in enumerate(zip(m_alt1.bonds, m_alt2.bonds)):
+        b1[0], b2[0] = 1 + j % 2, 2 - j % 2
+    if mm.n() >= 2:
+        m_alt1.atoms[0][1], m_alt1.atoms[-1][1] = 1, -1
+        m_alt2.atoms[0][1], m_alt2.atoms[-1][1] = -1, 1
+    m_chg = with_atoms(lambda i, a: a.__setitem__(1, rng.choice([0, 0, 1, -1, 2, -3, 15, -15]) if v2 else rng.choice([0, 1, -1, 7, -12, 15])))
+    m_nochg = with_atoms(lambda i, a: a.__setitem__(1, 0))
+    for name, m2 in (("coordinates", m_coord), ("coordinates", m_zero), ("bond_types", m_bt), ("bond_types:aromatic", m_arom),
+                     ("bond_types:all_single", m_single), ("resonance:bond_orders_and_charges_permuted", m_res), ("charges", m_chg), ("charges:none", m_nochg)):
+        yield name, A, render3000(m2, R(), **kb)
+    yield "resonance:alternating_orders_flipped_charge_pair_moved", render3000(m_alt1, R(), **kb), render3000(m_alt2, R(), **kb)
+
+    # --- spelling-level classes: toggle the knobs of one class
+    def toggled(names):
+        kn = dict(kb)
+        for nm in names:
+            cur = kn.get(nm, K3_DEFAULT[nm])
+            kn[nm] = K3_DEFAULT[nm] if cur != K3_DEFAULT[nm] else K3[nm][1]
+        return kn
+    yield "header_lines", A, render3000(mm, R(), **toggled(["header"]))
+    yield "header_lines", render3000(mm, random.Random(seed + 1), header=True), render3000(mm, random.Random(seed + 2), header=True)
+    yield "index_values", A, render3000(mm, R(), **toggled(["indices"]))
+    yield "index_values", render3000(mm, random.Random(seed + 1), indices=True), render3000(mm, random.Random(seed + 2), indices=True)
+    yield "extra_keywords_blocks", A, render3000(mm, R(), **toggled(["atom_kw", "bond_kw", "blocks", "counts_extra", "ctab_name", "aamap"]))
+    for nm in ("atom_kw", "bond_kw", "blocks", "counts_extra", "aamap"):
+        yield "extra_keywords_blocks:" + nm, A, render3000(mm, R(), **toggled([nm]))
+    yield "extra_keywords_blocks:all_atom_keywords", A, render3000(mm, R(), **dict(kb, atom_kw=99, bond_kw=5))
+    yield "line_endings", A, render3000(mm, R(), **toggled(["crlf"]))
+    yield "line_endings", A, render3000(mm, R(), **toggled(["crlf", "final_newline"]))
+    yield "layout:blanks_continuation_order_defaults", A, render3000(mm, R(), **toggled(["blanks", "trailing", "cont", "prop_order", "defaults", "coord_spelling", "stars_mixed", "iso_spelling"]))
+    if traps:
+        yield "header_lines:header_trap", A, render3000(mm, R(), **dict(kb, header_trap=True))
+    # --- V2000
+    if v2:
+        B = render2000(mm, R(), **kb2)
+        yield "format:v2000_vs_v3000", A, B
+        for name, m2 in (("v2000:coordinates", m_coord), ("v2000:bond_types", m_bt), ("v2000:bond_types:aromatic", m_arom), ("v2000:charges", m_chg),
+                         ("v2000:resonance", m_res)):
+            if v2ok(m2):
+                yield name, B, render2000(m2, R(), **kb2)
+        def tog2(names):
+            kn = dict(kb2)
+            for nm in names:
+                cur = kn.get(nm, K2_DEFAULT[nm])
+                kn[nm] = K2_DEFAULT[nm] if cur != K2_DEFAULT[nm] else K2[nm][1]
+            return kn
+        yield "v2000:header_lines", B, render2000(mm, R(), **tog2(["header"]))
+        yield "v2000:other_fields", B, render2000(mm, R(), **tog2(["noise_fields"]))
+        yield "v2000:unrelated_property_lines_atom_lists", B, render2000(mm, R(), **tog2(["unrelated", "atom_lists", "stext"]))
+        yield "v2000:line_endings", B, render2000(mm, R(), **tog2(["crlf"]))
+        yield "v2000:charge_encoding", render2000(mm, R(), **dict(kb2, charge_mode="codes")), render2000(mm, R(), **dict(kb2, charge_mode="lines", stale_codes=True))
+        if traps:
+            yield "v2000:unrelated_property_lines:text_trap", B, render2000(mm, R(), **dict(kb2, text_trap=True))
+
+
+def fals_c06_pair(a, b, ident=None):
+    sa, ea = tucan_of_text(a)
+    sb, eb = tucan_of_text(b)
+    out = []
+    if ea:
+        out.append("text A: " + ea)
+    if eb:
+        out.append("text B: " + eb)
+    if not out and sa != sb:
+        out.append("TUCAN strings differ: %s / %s" % (sa, sb))
+    if not out and ident is not None and sa != ident:
+        out.append("TUCAN string %s differs from the string of the bare identity data %s" % (sa, ident))
+    return out
+
+
+def c06(run, model):
+    rng = run.sub_rng("c06")
+    sc = scale_of(run)
+    t_end = time.time() + (75 if run.tier == "quick" else 900)
+    mms = list(directed3000()) + list(mm_stream(run.sub_rng("c06/mm"), 250 * sc, v2ok=False, stars=True))
+    mms += [mm for mm in mm_stream(run.sub_rng("c06/mm2"), 400 * sc, v2ok=True, stars=True) if v2ok(mm)][:250 * sc]
+    for i, mm in enumerate(mms):
+        run.count("C06_atoms:" + size_bucket(mm.n()))
+        ident = impl.tucan_of(impl.graph_of(am_of_mm(mm)))
+        kb = random_knobs3(rng, .3) if i % 2 else {}
+        kb2 = random_knobs2(rng, .3) if i % 2 else {}
+        first = True
+        for cls, a, b in c06_variants(mm, rng, kb, kb2, traps=TRAPS and (i < 3 or len(mms) - i <= 3)):
+            run.evaluations += 1
+            run.count("C06_class:" + cls.split(":")[0])
+            if a != b and mm.n() >= 2 and mm.all_bonds():
+                run.nontrivial.add(digest([a, b]))
+            probs = fals_c06_pair(a, b, ident if first else None)
+            if probs and first and "bare identity data" in probs[0]:
+                cls = "identity_data:plain_rendering_vs_graph_built_from_elements_isotopes_radicals_bonds"
+            first = False
+            if probs:
+                trap = cls.split(":")[-1] if cls.endswith("_trap") else None
+                run.falsifier_hits.append({"property": "C06", "what": "TUCAN string changes with non-identity data, class [%s]: %s" % (cls, probs[0]),
+                                           "key": "C06:" + (trap or cls), "case": {"kind": "C06", "class": cls, "text": a, "text_b": b, "mm": mm.to_json()},
+                                           "extra": {"problems": probs, "identity_tucan": ident}})
+            if i % 4 == 0:
+                # the texts of this property also tie the readers' models
+                l3 = b.splitlines()[3] if len(b.splitlines()) > 3 else ""
+                correspond(run, model, "K2" if l3.rstrip().endswith("V2000") else "K1", b, "c06:" + cls)
+        if mm.n() >= 4 and mm.all_bonds():
+            sample(run, {"mm": mm.to_json(), "tucan": ident, "classes": "all of c06_variants"})
+        if time.time() > t_end:
+            run.notes.append("C06: time budget reached after %d of %d molecules" % (i + 1, len(mms)))
+            break
+
+
+# ===================================================================== replay
+def replay_text(run, model, hit):
+    """re-run the falsifier of a recorded hit; True if it still fails"""
+    case = hit.get("case") or {}
+    kind = case.get("kind")
+    if kind == "C07":
+        probs = fals_c07(MM.from_json(case["mm"]), case["text"])
+    elif kind == "C08":
+        probs = fals_c08(MM.from_json(case["mm"]), case["text"], case["text3000"])
+    elif kind == "C09":
+        probs, _, _ = fals_c09_graph(graph_of_json(case["graph"]))
+    elif kind == "C09-pipeline":
+        probs, _ = fals_c09_pipeline(case["tucan"], case.get("calc", False))
+    elif kind == "C06":
+        mm = MM.from_json(case["mm"])
+        probs = fals_c06_pair(case["text"], case["text_b"], impl.tucan_of(impl.graph_of(am_of_mm(mm))))
+    else:
+        raise ValueError("hit has no replayable case: %r" % kind)
+    for p in probs[:5]:
+        print("  still failing:", p)
+    return bool(probs)
+
+
+# ===================================================================== self-test
+def _selftest(tier="quick"):
+    model = common.Model()
+    rc = 0
+    for name, fn in (("C06", c06), ("C07", c07), ("C08", c08), ("C09", c09)):
+        run = common.Run(name, tier, int(os.environ.get("VERIF_SEED", "0") or 0))
+        t0 = time.time()
+        fn(run, model)
+        print("%s tier=%s wall=%.1fs evaluations=%d nontrivial=%d samples=%d" % (name, tier, time.time() - t0, run.evaluations, len(run.nontrivial), len(run.samples)))
+        for cname, c in sorted(run.components.items()):
+            print("   component %s: cases=%d diffs=%d" % (cname, c["cases"], len(c["diffs"])))
+            seen = {}
+            for d in c["diffs"]:
+                seen.setdefault(d.get("tag", "").split(":")[0] + ":" + d["what"][:60], []).append(d)
+            for k, v in list(seen.items())[:8]:
+                print("      DIFF x%d %s" % (len(v), k))
+                print("         text: %r" % (v[0].get("text", v[0].get("content", ""))[:400],))
+        seen = {}
+        for h in run.falsifier_hits:
+            seen.setdefault(h["key"], []).append(h)
+        print("   falsifier hits: %d in %d classes" % (len(run.falsifier_hits), len(seen)))
+        for k, v in seen.items():
+            h = min(v, key=lambda h: len(h["case"].get("text") or ""))
+            print("      HIT x%d %s: %s" % (len(v), k, h["what"][:300]))
+            print("         smallest text: %r" % ((h["case"].get("text_b") or h["case"].get("text") or "")[:600],))
+            print("         replay still fails: %s" % replay_text(run, model, h))
+            rc = 1
+        if run.notes:
+            print("   notes:", run.notes)
+        if "-v" in sys.argv:
+            for k in sorted(run.hist):
+                print("      %s %d" % (k, run.hist[k]))
+    model.close()
+    return rc
+
+
+if __name__ == "__main__":
+    sys.exit(_selftest("thorough" if "--thorough" in sys.argv else "quick"))
